@@ -68,7 +68,7 @@ SAMPLES = {"quick": {"E": (4000, 1), "R": (4000, 1)},
 
 def active_devs():
     """Dev_ constants: all TRUE (= the code as it is) unless VERIF_C16_FIXED names the repaired ones."""
-    fixed = set(x for x in os.environ.get("VERIF_C16_FIXED", "").split(",") if x)
+    fixed = set(x for x in os.environ.get("VERIF_C16_FIXED", "nameleak").split(",") if x)   # nameleak: repaired by 720c179
     return {d: (d not in fixed) for d in DEV_CONST}
 
 
